@@ -18,8 +18,9 @@ def seed_not_none_assumption(fa: FA, attr="seed") -> Dict[Term, bool]:
     return {("is", pair): False}
 
 
-def generator_constructions(fa: FA) -> List[Tuple[int, ast.Call, Term]]:
-    """(node, call, seed term) of np.random.default_rng(...) calls in the function."""
+def generator_constructions(fa: FA, depth: int = 0) -> List[Tuple[int, ast.Call, Term]]:
+    """(node, call, seed term) of np.random.default_rng(...) calls in the function - also through package functions that build the
+    generator from their arguments (the seed term is then expressed in the caller's terms)."""
     out = []
     for n, call in fa.calls():
         t = fa.sym.term(call, n)
@@ -33,7 +34,43 @@ def generator_constructions(fa: FA) -> List[Tuple[int, ast.Call, Term]]:
                 if k == "seed":
                     seed = v
             out.append((n, call, seed))
+            continue
+        # a package function that builds the generator from its arguments (per_sample_rng(seed, idx)): its summary, instantiated
+        g = _resolve_package_function(fa, call, f)
+        if g is not None and depth < 2:
+            from ..fa import fa_of
+            ga = fa_of(fa.prog, g)
+            inner = generator_constructions(ga, depth + 1)
+            if inner:
+                ps = g.params()
+                if g.cls is not None and not g.is_static:
+                    ps = ps[1:]
+                binding = {}
+                for p_, a_ in zip(ps, t[2]):
+                    binding[("param", p_)] = a_
+                for k_, v_ in t[3]:
+                    binding[("param", k_)] = v_
+                for _, _, seed_g in inner:
+                    out.append((n, call, _subst(seed_g, binding) if seed_g is not None else None))
     return out
+
+
+def _resolve_package_function(fa: FA, call: ast.Call, f: Term):
+    try:
+        r = fa.prog.resolve_expr(fa.fi.module, call.func) if isinstance(call.func, (ast.Name, ast.Attribute)) else None
+    except Exception:  # pragma: no cover
+        r = None
+    if r and r[0] == "func" and r[1] is not fa.fi:
+        return r[1]
+    return None
+
+
+def _subst(t, binding):
+    if not isinstance(t, tuple):
+        return t
+    if t in binding:
+        return binding[t]
+    return tuple(_subst(x, binding) if isinstance(x, tuple) else x for x in t)
 
 
 def simplify(t: Term, assume) -> Term:
